@@ -419,7 +419,19 @@ class HeapMixin:
             if not (-n <= i < n):
                 self.raise_builtin('IndexError', node=node)
             return items[i]
-        # symbolic index over a concrete-length sequence: fork
+        # symbolic index over a concrete-length sequence of scalars: merge (no fork)
+        if n and (all(is_bool_like(x) for x in items) or all(is_int_like(x) for x in items)):
+            inrange = z3.And(i >= 0, i < n)
+            if not self.branch(inrange, 'index-in-range@%s' % getattr(node, 'lineno', '?')):
+                if self.branch(z3.And(i < 0, i >= -n), 'index-negative@%s' % getattr(node, 'lineno', '?')):
+                    i = i + n
+                else:
+                    self.raise_builtin('IndexError', node=node)
+            acc = zany(items[n - 1])
+            for k in range(n - 2, -1, -1):
+                acc = z3.If(i == k, zany(items[k]), acc)
+            return acc
+        # otherwise: fork
         opts = [i == k for k in range(n)] + [i == k - n for k in range(1, n + 1)]
         opts.append(z3.Or(i >= n, i < -n))
         c = self.choose(opts, 'index@%s' % getattr(node, 'lineno', '?'))
@@ -657,6 +669,8 @@ class HeapMixin:
                 if len(oa.items) != len(ob.items):
                     return False
                 return zand(*[self.equals(x, y) for x, y in zip(oa.items, ob.items)])
+            if isinstance(oa, Obj) and isinstance(ob, Obj) and oa.cls == ob.cls == 'hdrlist':
+                return oa.fields['t'] == ob.fields['t']
             if isinstance(oa, Obj) and isinstance(ob, Obj) and oa.cls == ob.cls == 'builtins.bytearray':
                 return self.equals(oa.fields['data'], ob.fields['data'])
             if isinstance(oa, Obj) and isinstance(ob, Obj) and oa.cls == ob.cls == 'hyperframe.flags.Flags':
